@@ -83,4 +83,64 @@ def Class.badMethods (c : Class) : List String :=
   | [] => (c.methods.filter fun m => !Method.ok 0 c.written m).map (·.name)
   | g :: _ => (c.methods.filter fun m => !Method.ok g c.written m).map (·.name)
 
+/-! ## Extended event language (atomic members split by kind of access)
+
+`tools/gen_locktable.py` also emits, for every class that has events on `std::atomic` / `SharedVariable` members, the
+same method summaries with `atomic f` refined into `ald f` (ONE atomic load: `.load()`, a conversion operator), `ast f`
+(ONE atomic store: `.store(v)`, `operator=`) and `armw f` (anything else).  `XClass.erase` forgets the refinement; the
+property file checks (by `decide`, on every run) that the erased extended entry IS the entry of the base table.  The
+shape that makes such a class serialisable although it is read outside its mutex is defined on these lists in
+`RomeaModel/LinAtomic.lean`. -/
+
+inductive XEv
+  | acq (m : Nat)
+  | rel (m : Nat)
+  | rd (f : Nat)
+  | wr (f : Nat)
+  | ald (f : Nat)      -- one atomic load of member f
+  | ast (f : Nat)      -- one atomic store to member f
+  | armw (f : Nat)     -- any other use of an atomic member (exchange, fetch_add, ++, bound to a reference, unrecognised)
+  | escape (f : Nat)
+  deriving DecidableEq, Repr
+
+structure XMethod where
+  name : String
+  evs : List XEv
+  deriving Repr
+
+structure XClass where
+  name : String
+  mutexes : List Nat
+  methods : List XMethod
+  deriving Repr
+
+def XEv.erase : XEv → Ev
+  | .acq m => .acq m
+  | .rel m => .rel m
+  | .rd f => .rd f
+  | .wr f => .wr f
+  | .ald f => .atomic f
+  | .ast f => .atomic f
+  | .armw f => .atomic f
+  | .escape f => .escape f
+
+/-- the entry of the base table an extended entry refines (compared field by field: `Class` has no `DecidableEq`) -/
+def XClass.erasesTo (x : XClass) (c : Class) : Bool :=
+  x.name == c.name && x.mutexes == c.mutexes &&
+  (x.methods.map fun m => (m.name, m.evs.map XEv.erase)) == (c.methods.map fun m => (m.name, m.evs))
+
+/-- fields some in-scope method writes: plain writes, atomic stores, other atomic uses -/
+def XEv.writes : XEv → Option Nat
+  | .wr f => some f
+  | .ast f => some f
+  | .armw f => some f
+  | _ => none
+
+def XClass.written (c : XClass) : List Nat :=
+  c.methods.flatMap (fun m => m.evs.filterMap XEv.writes)
+
+/-- event list of a method by name (empty if absent) -/
+def XClass.evsOf (c : XClass) (name : String) : List XEv :=
+  ((c.methods.filter fun m => m.name == name).head?.map (·.evs)).getD []
+
 end Romea.Lockset
